@@ -194,6 +194,11 @@ pub fn run(seed: u64, count: usize, outdir: &str) -> std::io::Result<i32> {
                     let pts: Vec<[f32; 3]> = (0..256).map(|_| [gen_tame(r), gen_tame(r), gen_tame(r)]).collect();
                     let mut e = Shape::<F>::new_point_eval();
                     let alone: Vec<u32> = pts.iter().map(|p| canon_bits(e.eval(&tape, p[0], p[1], p[2]).unwrap().0)).collect();
+                    // (each evaluator kind against ITSELF evaluated alone: across kinds the sign of a zero out of min / max, and what
+                    //  atan2 or a division make of it, may differ — C02)
+                    let alone_slice: Vec<u32> = { let mut se = Shape::<F>::new_float_slice_eval();
+                        let xs: Vec<f32> = pts.iter().map(|p| p[0]).collect(); let ys: Vec<f32> = pts.iter().map(|p| p[1]).collect(); let zs: Vec<f32> = pts.iter().map(|p| p[2]).collect();
+                        se.eval(&stape, &xs, &ys, &zs).unwrap().iter().map(|v| canon_bits(*v)).collect() };
                     let results: Vec<(Vec<u32>, Vec<u32>)> = std::thread::scope(|s| {
                         let hs: Vec<_> = (0..12).map(|ti| { let (tape, stape, pts) = (&tape, &stape, &pts); s.spawn(move || {
                             let mut e = Shape::<F>::new_point_eval();
@@ -210,8 +215,7 @@ pub fn run(seed: u64, count: usize, outdir: &str) -> std::io::Result<i32> {
                     });
                     for (ti, (pt, sl)) in results.iter().enumerate() {
                         if *pt != alone { bad.push(format!("kind=concurrent-evaluation-differs backend={backend} thread {ti}: point results differ from the same tape evaluated alone")); }
-                        let same = sl.iter().zip(&alone).all(|(a, b)| a == b || (f32::from_bits(*a) == 0.0 && f32::from_bits(*b) == 0.0));
-                        if !same { bad.push(format!("kind=concurrent-evaluation-differs backend={backend} thread {ti}: slice results differ from the point results evaluated alone")); }
+                        if *sl != alone_slice { bad.push(format!("kind=concurrent-evaluation-differs backend={backend} thread {ti}: slice results differ from the same tape evaluated alone")); }
                     }
                 }
                 conc::<VmFunction>(&g, &mut r, &mut bad, "vm");
